@@ -851,6 +851,69 @@ func (c *Ctx) ord14() {
 			}
 		}
 		a.done(1, "every possibly blocking transfer follows a fresh deadline (or data already buffered)")
+
+		// the deadline is a pair: it is armed only when a timeout is configured
+		// (PauseTimeout zero means none: now+0 expires at once), and whoever
+		// arms it has registered its removal, or the idle wait for the next
+		// packet inherits a deadline that is about to expire
+		only := c.acc("ORD-14", fn, "deadline-armed-only-with-PauseTimeout≠0")
+		pair := c.acc("ORD-14", fn, "deadline-armed⇒removal-deferred")
+		for _, p := range c.Paths("ORD-14", fn) {
+			if p.Start != fn.Blocks[0] && name != "(*Client).peekPacket" && name != "(*Client).discard" {
+				continue
+			}
+			deferred := false
+			for i := range p.Events {
+				e := &p.Events[i]
+				isDL := func(e *pathx.Event) bool {
+					return e.Method != nil && (e.Method.Name() == "SetReadDeadline" || e.Method.Name() == "SetWriteDeadline" || e.Method.Name() == "SetDeadline")
+				}
+				if e.Kind == pathx.KDefer && isDL(e) {
+					if z, ok := e.Args[1].(*ssa.Const); ok && z != nil {
+						deferred = true
+					}
+				}
+				if e.Kind != pathx.KCall || e.Deferred || !isDL(e) {
+					continue
+				}
+				if z, ok := e.Args[1].(*ssa.Const); ok && z != nil {
+					continue // time.Time{}: removal
+				}
+				nonZero := false
+				for _, cm := range assumed(p, 0, i) {
+					if (roleKey(cm.X) == "Config.PauseTimeout" || isParamOfType(cm.X, "time.Duration")) && isK(cm.Y, 0) && cm.Op == token.NEQ {
+						nonZero = true
+					}
+				}
+				if nonZero {
+					only.pass()
+				} else if p.Start == fn.Blocks[0] {
+					only.fail(p, i, "a deadline of now+PauseTimeout is set on a path that has not established PauseTimeout != 0: without a configured timeout every transfer that has to wait fails at once")
+				}
+				if p.Start != fn.Blocks[0] {
+					continue // the deferral dominates the loop: judged on entry paths
+				}
+				later := false
+				for k := i + 1; k < len(p.Events); k++ {
+					if d := &p.Events[k]; d.Kind == pathx.KDefer && isDL(d) {
+						if z, ok := d.Args[1].(*ssa.Const); ok && z != nil {
+							later = true
+						}
+					}
+				}
+				failedToArm := false
+				if n, k := nilResult(p, i, -1); k && !n {
+					failedToArm = true
+				}
+				if deferred || later || failedToArm {
+					pair.pass()
+				} else {
+					pair.fail(p, i, "a deadline is armed without its removal being deferred: it stays in force after the function returns, and the next idle wait is cut short by it")
+				}
+			}
+		}
+		only.done(0, "every arming call lies behind PauseTimeout != 0")
+		pair.done(0, "every arming call follows a deferred removal")
 	}
 	c.S.Floor("ORD-14", "blocking I/O sites on protected paths", n, 12)
 }
